@@ -279,6 +279,8 @@ pub struct ReadDesc {
     pub template: usize,
     /// index of the mate in `Stream::reads` (pairs only)
     pub mate: Option<usize>,
+    /// how the mate fields of this record were made inconsistent with its mate (None = consistent)
+    pub stale: Option<&'static str>,
 }
 
 impl ReadDesc {
@@ -474,6 +476,10 @@ pub struct GenOpts {
     pub pm_supp_of_pair: u64,
     /// per-mille probability that a single unmapped read is placed (has RNAME/POS)
     pub pm_place_unmapped: u64,
+    /// per-mille probability that the mate fields of a pair are made inconsistent (stale) in one
+    /// direction or in both (the statement covers every stream the writer accepts, not only
+    /// mutually consistent pairs)
+    pub pm_stale_mates: u64,
 }
 
 impl Default for GenOpts {
@@ -501,6 +507,7 @@ impl Default for GenOpts {
             alternate_minimal: false,
             pm_supp_of_pair: 0,
             pm_place_unmapped: 250,
+            pm_stale_mates: 0,
         }
     }
 }
@@ -914,6 +921,7 @@ pub fn gen_mapped_read(rng: &mut Rng, refs: &[RefSeq], rid: usize, start: usize,
         features: feats,
         template: 0,
         mate: None,
+        stale: None,
     }
 }
 
@@ -943,6 +951,7 @@ pub fn gen_unmapped_read(rng: &mut Rng, place: Option<(usize, usize)>, max_len: 
         features: FeatureCounts::default(),
         template: 0,
         mate: None,
+        stale: None,
     }
 }
 
@@ -1117,6 +1126,39 @@ pub fn finalize_mates(reads: &mut [ReadDesc]) {
     }
 }
 
+/// The ways one record's mate information can disagree with its mate.
+pub const STALE_KINDS: [&str; 8] = ["stale-pnext", "stale-rnext", "mate-reverse-bit-flipped", "mate-unmapped-bit-flipped", "tlen-magnitude", "tlen-sign", "tlen-zero", "pnext-and-tlen"];
+
+/// Makes the mate fields of record `i` inconsistent with its mate (call after `finalize_mates`).
+pub fn make_mate_info_stale(reads: &mut [ReadDesc], i: usize, kind: &'static str, n_refs: usize) {
+    let r = &mut reads[i];
+    match kind {
+        "stale-pnext" => r.mate_pos = Some(r.mate_pos.unwrap_or(0) + 2),
+        "stale-rnext" => {
+            if n_refs > 1 {
+                r.mate_ref = Some((r.mate_ref.unwrap_or(0) + 1) % n_refs);
+                if r.mate_pos.is_none() {
+                    r.mate_pos = Some(3);
+                }
+            } else {
+                r.mate_pos = Some(r.mate_pos.unwrap_or(0) + 5);
+            }
+        }
+        "mate-reverse-bit-flipped" => r.flags ^= F_MATE_REVERSE,
+        "mate-unmapped-bit-flipped" => r.flags ^= F_MATE_UNMAPPED,
+        "tlen-magnitude" => r.tlen += if r.tlen < 0 { -3 } else { 3 },
+        "tlen-sign" => r.tlen = if r.tlen != 0 { -r.tlen } else { 7 },
+        "tlen-zero" => r.tlen = if r.tlen != 0 { 0 } else { -5 },
+        "pnext-and-tlen" => {
+            r.mate_pos = Some(r.mate_pos.unwrap_or(0) + 2);
+            r.tlen += if r.tlen < 0 { -2 } else { 2 };
+        }
+        other => panic!("unknown stale kind {other}"),
+    }
+    r.flags &= !F_PROPER;
+    r.stale = Some(kind);
+}
+
 /// A minimal record: flag 4 only, everything else missing.
 pub fn minimal_read() -> ReadDesc {
     ReadDesc {
@@ -1136,6 +1178,7 @@ pub fn minimal_read() -> ReadDesc {
         features: FeatureCounts::default(),
         template: 0,
         mate: None,
+        stale: None,
     }
 }
 
@@ -1304,6 +1347,24 @@ pub fn gen_stream(rng: &mut Rng, o: &GenOpts) -> Stream {
         }
     }
     finalize_mates(&mut reads);
+    if o.pm_stale_mates > 0 {
+        for i in 0..reads.len() {
+            let Some(j) = reads[i].mate else { continue };
+            if j < i || rng.below(1000) >= o.pm_stale_mates {
+                continue;
+            }
+            let kind = *rng.pick(&STALE_KINDS);
+            match rng.below(3) {
+                0 => make_mate_info_stale(&mut reads, i, kind, n_refs),
+                1 => make_mate_info_stale(&mut reads, j, kind, n_refs),
+                _ => {
+                    make_mate_info_stale(&mut reads, i, kind, n_refs);
+                    let k2 = *rng.pick(&STALE_KINDS);
+                    make_mate_info_stale(&mut reads, j, k2, n_refs);
+                }
+            }
+        }
+    }
     Stream { refs, read_groups, reads, declared_lengths: None }
 }
 
